@@ -22,7 +22,21 @@ var timeBase = time.Date(2020, 1, 1, 0, 0, 0, 0, time.UTC)
 // the abstract value of a float leaf that stands for NaN (ZogData NaNV)
 const nanV = 8
 
+// abstract value 8 of a time leaf: the zero instant, but not the Go zero value (it carries a zone)
+var zeroInstantElsewhere = time.Time{}.In(time.FixedZone("verif+1", 3600))
+
 func concTime(n int) time.Time {
+	if n == 0 {
+		return time.Time{}
+	}
+	if n == nanV {
+		return zeroInstantElsewhere
+	}
+	return concTimeParam(n)
+}
+
+// parameters of time tests are ordinary instants for every n
+func concTimeParam(n int) time.Time {
 	if n == 0 {
 		return time.Time{}
 	}
@@ -121,6 +135,9 @@ func abstractVal(v any) int {
 			return int(x)
 		}
 	case time.Time:
+		if x.IsZero() && x.Location() != time.UTC {
+			return nanV
+		}
 		if x.IsZero() {
 			return 0
 		}
@@ -716,11 +733,11 @@ func (b *builder) build1(n *Node, tmpl []string) z.ZogSchema {
 				}
 				switch t.Kind {
 				case "gt":
-					s.After(concTime(t.N), o...)
+					s.After(concTimeParam(t.N), o...)
 				case "lt":
-					s.Before(concTime(t.N), o...)
+					s.Before(concTimeParam(t.N), o...)
 				case "eq":
-					s.EQ(concTime(t.N), o...)
+					s.EQ(concTimeParam(t.N), o...)
 				default:
 					panic("time test " + t.Kind)
 				}
